@@ -14,6 +14,10 @@ theorem brine_values_hashable : Gen.allBrineValuesHashable = true := by decide
 /-- the real `logging.Logger` survives the two `warn` calls that sit outside every `try` in `_work` -/
 theorem real_logger_survives_warn : Gen.realLoggerSurvivesWarn = true := by decide
 
+/-- `brine.dump(reply)` and `_send` sit inside a guard of their own: when they raise, `_work` logs and goes on
+(observed on the live loop with a `brine` whose dump of one reply raises RecursionError) -/
+theorem reply_dump_guarded : Gen.replyDumpGuarded = true := by decide
+
 mutual
 theorem hashable_true : ∀ v, hashable v = true
   | .none | .notImpl | .ellipsis | .bool _ | .int _ | .float _ | .complex _ _ | .bytes _ | .str _ | .fset _ | .other _ => by
